@@ -606,12 +606,14 @@ class FileCache(CacheMixin):
         path = self.to_path(
             state.query, prefix="data_", extension=t.default_extension()
         )
-        with open(path, "wb") as f:
-            try:
-                b, mime = t.as_bytes(state.data)
-                f.write(self.encode(b))
-            except NotImplementedError:
-                return False
+        try:
+            b, mime = t.as_bytes(state.data)
+        except NotImplementedError:
+            return False
+        temporary_path = path + ".tmp"
+        with open(temporary_path, "wb") as f:
+            f.write(self.encode(b))
+        os.replace(temporary_path, path)
         return True
 
     def store_metadata(self, metadata):
